@@ -229,6 +229,25 @@ func (ex *Exec) flow(fr *Frame, loops map[*ssa.BasicBlock]*loopInfo, edges map[e
 	succ := b.Succs[si]
 	es := cur.clone()
 	es.guard = ex.vc.Bind("ge", SBool, and(cur.guard, cond))
+	// exit edges: b inside a loop, succ outside it
+	for _, li := range loops {
+		if li.blocks[b] && !li.blocks[succ] {
+			if lc := ex.loopContract(fr, li); lc != nil && len(lc.Exit) > 0 {
+				pos := token.NoPos
+				if n := len(b.Instrs); n > 0 {
+					pos = b.Instrs[n-1].Pos()
+				}
+				for _, cl := range lc.Exit {
+					for _, part := range ex.splitClauseE(fr, es, nil, cl) {
+						o := ex.oblige(es, fr, fmt.Sprintf("loop-exit(L%d)", li.ordinal), pos, part.text, part.term)
+						if o != nil && len(cl.Props) > 0 {
+							o.Props = cl.Props
+						}
+					}
+				}
+			}
+		}
+	}
 	if succ.Dominates(b) {
 		// back edge: invariant preservation
 		li := loops[succ]
@@ -886,6 +905,16 @@ func appendOnlyCell(li *loopInfo, c *ssa.Alloc) bool {
 
 func (ex *Exec) cutLoop(fr *Frame, st *State, li *loopInfo) {
 	preAlloc := st.alloc
+	if lc := ex.loopContract(fr, li); lc != nil {
+		for _, cl := range lc.Init {
+			for _, part := range ex.splitClauseE(fr, st, nil, cl) {
+				o := ex.oblige(st, fr, fmt.Sprintf("loop-init(L%d)", li.ordinal), token.NoPos, part.text, part.term)
+				if o != nil && len(cl.Props) > 0 {
+					o.Props = cl.Props
+				}
+			}
+		}
+	}
 	ex.checkInvariants(fr, st, li, "inv-init")
 	ws := ex.loopWrites(fr, li)
 	// components not yet known but possibly written later in the loop body
